@@ -217,3 +217,23 @@ PROPS["C01"] = {
     "quick": [R("TestPropDispatch", 2500)],
     "thorough": [R("TestPropDispatch", 20000, shards=16, timeout=2400)],
 }
+
+PROPS["C04"] = {
+    "pkg": "c04", "level": "exploration",
+    "rule": ("forwarded_line: rapid draws 0-4 rewriters (literal old/new with max in {-1,0,1,2,5}, /regex/ rules with ${n}/$n templates, not-clauses as "
+             "substring and /regex/, names with repeated occurrences of old) and 1-8 valid lines with arbitrary whitespace layout (leading / "
+             "trailing / multiple separators, tab, vertical tab) and value / timestamp tokens in many numeric spellings; the table has two capture "
+             "routes, a real sendAllMatch route with a LIVE loopback endpoint between them, and a buffered aggregation (inbox 500) so messages are "
+             "still queued after Dispatch returns. Every line is passed in ONE reused backing array that the harness overwrites with '#' right "
+             "after Dispatch returns. Oracle: expected line = reference rewriter (from docs/rewriting.md) + ' ' + value token + ' ' + timestamp "
+             "token byte-for-byte at both capture routes, in the endpoint's byte stream (completion by sentinel line) and as the aggregation's "
+             "output names; the caller's buffer is unchanged by the call; all recipients identical; every retained slice still equals its "
+             "at-receipt copy at the end. rewriter: rewriter.RW.Do vs the reference on names with repeated occurrences. Non-trivial: a rewriter "
+             "changed the name, or non-canonical whitespace, or the buffer was reused while aggregator messages were pending. Distinct = hash(rewriters, input lines)."),
+    "level_text": "Reference-model + byte-equality property testing through the real table, a real destination/TCP endpoint and a real aggregator, with adversarial reuse of the input buffer; holds on all generated.",
+    "level_note": "A name that arrived with one leading dot may be forwarded with or without it (the statement does not fix that). Go regexp Expand is trusted for ${n} expansion.",
+    "technique": "property-based testing (rapid): reference rewriter model, round-trip through a loopback endpoint, buffer-scribbling metamorphic check",
+    "assumptions": ["loopback TCP delivers bytes in order", "sentinel line marks completion (single FIFO writer per connection)"],
+    "quick": [R("TestPropForwardedLine", 1500), R("TestPropRewriter", 20000)],
+    "thorough": [R("TestPropForwardedLine", 12000, shards=12, timeout=2400), R("TestPropRewriter", 300000, shards=4, timeout=2400)],
+}
